@@ -7,6 +7,7 @@ import Driver.WireJ
 import Driver.TiiJ
 import Driver.JsonJ
 import Driver.FrontJ
+import Driver.LangJ
 
 def main (args : List String) : IO UInt32 := do
   match args with
@@ -26,6 +27,7 @@ def main (args : List String) : IO UInt32 := do
       | _ => Driver.Compile.judge "C14" j)
     return 0
   | ["C11"] => Driver.runJudge Driver.WireJ.judgeC11; return 0
+  | ["C01"] => Driver.runJudge Driver.LangJ.judge; return 0
   | ["C12"] => Driver.runJudge (Driver.FrontJ.judge "C12"); return 0
   | ["C13"] => Driver.runJudge (Driver.FrontJ.judge "C13"); return 0
   | ["C19"] => Driver.runJudge (Driver.FrontJ.judge "C19"); return 0
